@@ -51,16 +51,21 @@ def read_contracts_from_file(  # noqa: WPS231 too much cognitive complexity
             names.append(entry["name"])
         elif entry["type"] == "PolyhedralIoContract":
             polyhedra.serializer.validate_contract_dict(entry["data"], entry["name"], machine_representation=False)
-            contracts.append(PolyhedralIoContract.from_strings(**entry["data"]))
+            contracts.append(PolyhedralIoContract.from_strings(**_contract_fields(entry["data"])))
             names.append(entry["name"])
         elif entry["type"] == "PolyhedralIoContractCompound":
             _validate_compound_contract_dict(entry["data"], entry["name"])
-            contracts.append(PolyhedralIoContractCompound.from_strings(**entry["data"]))
+            contracts.append(PolyhedralIoContractCompound.from_strings(**_contract_fields(entry["data"])))
             names.append(entry["name"])
         else:
             raise ValueError()
 
     return contracts, names
+
+
+def _contract_fields(contract: dict) -> dict:
+    """The four fields of a contract dictionary; any other key (a comment, say) is ignored, as in the machine form."""
+    return {kw: contract[kw] for kw in ("assumptions", "guarantees", "input_vars", "output_vars")}
 
 
 def _validate_compound_contract_dict(contract: Any, contract_name: str) -> None:  # noqa: WPS231
